@@ -27,7 +27,8 @@ RULE = ('one case = (MDIB variant, service, flag, handle list) or (text store, f
         'canonical JSON; non-trivial = the reference selection is non-empty or the handle list contains a known handle / the store is non-empty')
 TRUSTED = ['index look-ups of the MDIB tables behave like scans (C11)', 'lxml serialisation / parsing of the request and response messages',
            'text content is abstracted to its number of lines (texts are generated as k lines)']
-ASSUMPTIONS = ['provider is not started (no sockets); service clients are looped back in-process',
+ASSUMPTIONS = ['provider is not started (no sockets, no role provider worker threads); service clients are looped back in-process',
+               'with SdcProvider.contextstates_in_getmdib = False the Get service serves no context states (the context service does): the reference selection of GetMdState then contains single states only',
                'generated MDIBs satisfy Query.WF (checked per MDIB)']
 
 WIDTHS = ['xs', 's', 'm', 'l', 'xl', 'xxl']
